@@ -22,7 +22,8 @@ ExplorerScript.g4) and docs/language_spec.rst declare equivalent:
   for-target    `for_actor(X)` <-> `for actor X` <-> `for actor (X)` <-> `for_actor X` (and object, performer)
   comma         trailing comma added / removed in operation and macro-call argument lists and language strings
   int-base      each INTEGER token re-spelled in every base / prefix case / zero padding (value per spec/literals.py)
-  dec-zeros     each DECIMAL token with redundant leading zeros added / removed
+  dec-zeros     each DECIMAL token (positive / negative, zero / non-zero / absent whole part; in every integer_like position and in
+                position marks) with redundant leading zeros of the whole part added / removed (-7.5 <-> -007.5, -0.5 <-> -00.5 <-> -.5)
   quotes        each STRING_LITERAL whose body has no backslash and no quote: '..' <-> ".." and (where the grammar allows a
                 multi-line literal) <-> '''..''' / \"\"\"..\"\"\" (only bodies without line breaks and surrounding blanks)
 
@@ -132,6 +133,16 @@ SMALL = [
     "def 0 { end; }\ndef 1 { hold; }\ndef 2 { return; }",
     "// leading comment\ndef 0 { /* inner */ a(); // trailing\n}\n/* unterminated",
     "def 0 { a('it\\'s', \"q\\\"q\", 'a\\nb', \"\"\"x\"\"\", '''y'''); }",
+    # decimals of every sign / whole-part shape in every position that takes an integer_like (and in position marks)
+    "macro dm($a) { x($a, -2.25); }\n"
+    "def 0 { x(-7.5, 30.125, -030.125, -1.0, 1.0, -0.5, -.5, .5, 0.5, -00.25, 007.5, -12.0050, 100.0, -100.0); x<actor -7.5>(1); y<object 7.5>(-3.75); "
+    "with (performer -12.5) { x(); } $v = -7.5; $v += -1.25; -7.5 = 3; $v = value(-7.5); -7.5[3] = 1; clear -7.5; init -9.5; reset scn(-7.5); "
+    "adventure_log = -7.5; dungeon_mode(-7.5) = -8.5; -7.5 = scn[1, 2]; "
+    "if (-7.5 == -6.5 || $a > value(-7.5) || -7.5[3] || scn(-7.5) == [1,2]) { x(); } "
+    "switch (-7.5) { case -7.5: x(); break; case > -6.5: y(); break; case == value(-5.5): z(); break; case menu2(-4.5): w(); } "
+    "switch (random(-7.5)) { case 1.5: x(); } switch (dungeon_mode(-7.5)) { case -1.5: x(); } switch (scn(-7.5)[0]) { case 1: x(); } "
+    "message_SwitchTalk (-7.5) { case -7.5: 'x' case 7.5: 'y' } while (-7.5 < -6.5) { x(); } for (-7.5 = -6.5; $i < -5.5; $i += -4.5;) { x(); } "
+    "~dm(-7.5); ~dm(-0.5); p(Position<'p', -7.5, -0.5>, Position<'q', -12.0, 3.50>); end; }",
     # '-' glued to numbers / assignment operators
     "def 0 { $a -= 1; $a -=-1; $a = -1; $a += -0x1; x(1,-2,-.5, -0.5); switch ($a) { case -1: x(); break; case > -2: y(); } if ($a < -1) { z(); } }",
     # identifiers that start with (or contain) keywords
@@ -164,6 +175,9 @@ STATEMENT_POOL = [
     "~mac(1, 'x');",
     "x({english=\"a\", french='b',});",
     "y(0x10, -3, 0b101, 0o7, 00.50);",
+    "z(-7.5, -030.125, -1.0, -0.5, -.5, 12.5);",
+    "$v = -7.5;",
+    "switch ($v) { case -2.5: a(); break; case > -10.25: b(); }",
 ]
 
 
@@ -512,24 +526,55 @@ def t_int_bases(toks, gaps):
             yield ("int-base", f"{base}:all", nt, list(gaps))
 
 
+def _decimal_alternatives(tx: str) -> list[tuple[str, str]]:
+    """(spelling, how) for every spelling of the DECIMAL token tx that differs only in leading zeros of the whole part
+    (the fraction digits are never touched: trailing zeros are not in the property's list)."""
+    neg = tx.startswith("-")
+    s = tx[1:] if neg else tx
+    whole, fract = s.split(".")
+    core = whole.lstrip("0")  # '' for a zero / absent whole part
+    forms = []
+    if core:
+        forms += [(core, "canonical"), ("0" + core, "1-zero"), ("00" + core, "2-zeros"), ("00000" + core, "5-zeros")]
+    else:
+        forms += [("", "no-whole-part"), ("0", "canonical"), ("00", "2-zeros"), ("0000", "4-zeros")]
+    out = []
+    for w, how in forms:
+        sp = ("-" if neg else "") + w + "." + fract
+        if sp != tx:
+            assert LIT.is_decimal_spelling(sp) and LIT.decimal_value(sp) == LIT.decimal_value(tx), (tx, sp)
+            out.append((sp, how))
+    return out
+
+
+def _decimal_class(toks, i) -> str:
+    tx = toks[i][1]
+    neg = tx.startswith("-")
+    whole = tx.lstrip("-").split(".")[0]
+    shape = ("negative" if neg else "positive") + ("-nonzero-whole" if whole.strip("0") else "-zero-whole")
+    prev = toks[i - 1][0] if i else "BOF"
+    in_mark = prev == "COMMA" and any(t[0] == "POSITION" for t in toks[max(0, i - 6) : i]) and not any(t[0] == "CLOSE_SHARP" for t in toks[max(0, i - 6) : i])
+    return f"{shape}:{'position-mark' if in_mark else 'integer-like'}"
+
+
 def t_dec_zeros(toks, gaps):
-    for i, (ty, tx) in enumerate(toks):
-        if ty != "DECIMAL":
-            continue
-        neg = tx.startswith("-")
-        s = tx[1:] if neg else tx
-        whole, fract = s.split(".")
-        alts = {whole.lstrip("0") or "0", "0" + whole if whole else "0", "000" + whole, whole.lstrip("0")}
-        for w in sorted(alts):
-            sp = ("-" if neg else "") + w + "." + fract
-            if sp == tx or not LIT.is_decimal_spelling(sp):
-                continue
-            assert LIT.decimal_value(sp) == LIT.decimal_value(tx)
+    idx = [i for i, (ty, _tx) in enumerate(toks) if ty == "DECIMAL"]
+    for i in idx:
+        for sp, how in _decimal_alternatives(toks[i][1]):
             nt = list(toks)
             nt[i] = ("DECIMAL", sp)
-            prev = toks[i - 1][0] if i else "BOF"
-            ctx = "position-mark" if (i >= 2 and any(t[0] == "POSITION" for t in toks[max(0, i - 6) : i]) and prev == "COMMA") else "value"
-            yield ("dec-zeros", f"{'no-whole-part' if w == '' else 'zeros'}:{ctx}", nt, list(gaps))
+            yield ("dec-zeros", _decimal_class(toks, i), nt, list(gaps))  # the padding style (how) is visible in the re-spelled text
+    # all decimals of the program at once, per padding style
+    for how in ("canonical", "2-zeros", "5-zeros", "no-whole-part"):
+        nt = list(toks)
+        changed = False
+        for i in idx:
+            alt = [sp for sp, h in _decimal_alternatives(toks[i][1]) if h == how or (how == "5-zeros" and h == "4-zeros")]
+            if alt:
+                nt[i] = ("DECIMAL", alt[0])
+                changed = True
+        if changed:
+            yield ("dec-zeros", "all-decimals-at-once", nt, list(gaps))
 
 
 SIMPLE_BODY = re.compile(r"[^\\'\"\r\n\f]*")
